@@ -1046,3 +1046,80 @@ func madeWithLoopBound(in ssa.Instruction) (bool, string) {
 	}
 	return false, ""
 }
+
+func init() {
+	register(&Rule{ID: "C05.R6", Props: []string{"C05", "C04"}, Min: 2, Needs: NeedMain,
+		Doc: "the nesting-depth counter is sound: in the function that checks it, every increment is undone on every exit (directly or by a deferred decrement registered before any return), and nothing else in the decoding packages writes the counter (a reset elsewhere on the recursion cycle, or a leaked increment, breaks the bound / rejects flat well-formed data later)",
+		Run: func(r *R) {
+			var guardFn *ssa.Function
+			var field string
+			for _, fn := range r.w.decodeFuncs() {
+				if why, ok := depthGuard(fn, map[*ssa.Function]bool{fn: true}); ok {
+					guardFn = fn
+					if i := strings.Index(why, "counter "); i >= 0 {
+						field = strings.Fields(why[i+8:])[0]
+					}
+				}
+			}
+			if guardFn == nil || field == "" {
+				r.Bad("decoders", "depth counter", token.NoPos, "no depth-checking function found (see C05.R2)")
+				return
+			}
+			isStoreOfField := func(in ssa.Instruction) (delta int64, plain bool, ok bool) {
+				st, isSt := in.(*ssa.Store)
+				if !isSt {
+					return 0, false, false
+				}
+				fv, _, isF := fieldAddrOf(st.Addr)
+				if !isF || fv.Name() != field || typeID(st.Addr.(*ssa.FieldAddr).X.Type()) != modPath+"/"+codecPkg+".Reader" {
+					return 0, false, false
+				}
+				if bo, isB := st.Val.(*ssa.BinOp); isB {
+					if k, isK := constInt(bo.Y); isK {
+						if _, name, _, isL := loadedField(bo.X); isL && name == field {
+							if bo.Op == token.ADD {
+								return k, false, true
+							}
+							if bo.Op == token.SUB {
+								return -k, false, true
+							}
+						}
+					}
+				}
+				return 0, true, true
+			}
+			// pairing inside the guard function
+			eachInstr(guardFn, func(in ssa.Instruction) {
+				d, plain, ok := isStoreOfField(in)
+				if !ok || plain || d <= 0 {
+					return
+				}
+				isRel := func(j ssa.Instruction) bool {
+					d2, p2, ok2 := isStoreOfField(j)
+					return ok2 && !p2 && d2 == -d
+				}
+				ex := unpairedExit(in, isRel)
+				r.Check(ex == nil, fname(guardFn), "depth increment is undone on every exit", in.Pos(), "every path from the increment to a return passes the decrement (deferred)", "a return at %s is reachable after the depth increment without the decrement: each such field leaks one level, and after enough skipped fields a flat, well-formed message is rejected as `nesting too deep`", posOf(r, ex))
+			})
+			// who-may-write
+			n := 0
+			for _, fn := range r.w.decodeFuncs() {
+				root := fn
+				for root.Parent() != nil {
+					root = root.Parent()
+				}
+				eachInstr(fn, func(in ssa.Instruction) {
+					_, plain, ok := isStoreOfField(in)
+					if !ok {
+						return
+					}
+					n++
+					okk := root == guardFn && !plain
+					r.Check(okk, fname(fn), "write of the depth counter", in.Pos(), "only the checking function adjusts the counter by ±1", "the depth counter is %s: this resets/changes the bound in the middle of a recursion, so the nesting limit no longer holds (a list/map level inside a skipped struct restarts the count)", map[bool]string{true: "assigned a fresh value here", false: "adjusted outside the function that checks it"}[plain])
+				})
+			}
+			if n < 2 {
+				r.Bad(fname(guardFn), "depth counter writes", guardFn.Pos(), "found %d writes of the depth counter (expected the increment and the decrement)", n)
+			}
+		}})
+}
